@@ -7,6 +7,12 @@ def J(flavour, cmd, **kw):
     return d
 
 
+HOOK_COMMITS = [
+    "verif hook: cargo feature mla_verif (scaled layer size constants, test-only constructors/accessors); no change with the feature off",
+    "verif hook: scaled FILENAME_MAX_SIZE under the mla_verif feature (no change with the feature off)",
+]
+NOT_APPLICABLE = {}
+
 PROPS = {
     "C11": {
         "jobs": lambda tier: [
@@ -22,5 +28,21 @@ PROPS = {
                        "number, cache position and length of the real EncryptionLayerReader equal the model's",
         "assumptions": ["fewer than 2^32-2 chunks per stream (current_chunk_number is a u32)",
                         "the cipher enters as an arbitrary keystream/tag function; observables compared do not depend on it"],
+    },
+    "C09": {
+        "jobs": lambda tier: [
+            J("scaled", "witness --only C09"),
+            J("scaled", "c09"),
+        ],
+        "rule": "scaled name limit (FILENAME_MAX_SIZE=48): EVERY call sequence of length <= 3 (quick; length 4 sampled 1/16 "
+                "in thorough) over a 28-call alphabet {start x5 names (fresh, second, empty, max, max+1), append x {open, "
+                "other, never-issued id} x {size 0, exact, short, long source}, end x3 ids, add x3 names x {exact, short}, "
+                "flush, finalize}, plus random sequences of 4..40 calls; non-trivial = at least two calls or a refused call; "
+                "distinct = distinct sequence",
+        "exhaustive": {"quick": True, "thorough": True},
+        "explanation": "theorems: refused call is a no-op on the whole writer state, refused calls erasable from any sequence, "
+                       "short source never Ok; correspondence: result of every call, exact block stream bytes and the footer "
+                       "map of the real ArchiveWriter (no layers) equal the model's (concrete SHA-256 in Coq)",
+        "assumptions": ["the destination accepts every write (C13 lifts this)", "sha2::Sha256 equals FIPS 180-4 (Concrete/Sha256.v, KATs)"],
     },
 }
